@@ -1,6 +1,6 @@
 (* C09 - every producer emits only well-formed event streams (Visitor contract).
    Statements only; proofs are in Core/AdapterProofs.v. *)
-From SF Require Import Base.Prelude Core.Events Core.EventsProofs Core.AdapterProofs Cbor.Spec Cbor.Parse Cbor.ConformanceProofs.
+From SF Require Import Base.Prelude Core.Events Core.EventsProofs Core.AdapterProofs Cbor.Spec Cbor.Parse Cbor.ConformanceProofs Gotype.Types Gotype.Fold Gotype.FoldProofs.
 
 (* The contract monitor [contract_ok] (balanced and properly nested starts/finishes, one
    key before every member value, an announced non-negative length equals the number of
@@ -40,3 +40,12 @@ Theorem C09_cbor_parser : forall b v, all_bytes b = true -> (zlen b <=? MaxInt64
   exists evs, run_parse None b = Ok (evs, nilE) /\ contract_ok evs = true.
 Proof. exact ConformanceProofs.C09_cbor_parser. Qed.
 Print Assumptions C09_cbor_parser.
+
+(* Fold: for every well-typed Go value of every type of the universe and every combination
+   of tag options, a successful fold emits a well-formed stream: balanced, one key per
+   member, the announced member count right (or unknown, -1, when omitempty/inline fields
+   make it depend on the value), typed fast-path events well typed. *)
+Theorem C09_fold : forall t v evs,
+  has_type t v = true -> fold_value t v = (evs, None) -> contract_ok evs = true.
+Proof. exact FoldProofs.C09_fold. Qed.
+Print Assumptions C09_fold.
